@@ -111,7 +111,11 @@ func nativeReplay(path string) (bool, string) {
 	reg.WriteString("}\n")
 	os.WriteFile(filepath.Join(scratch, "zz_verif_registry.go"), []byte(reg.String()), 0o644)
 	timeout := 120 * time.Second
-	cmd := exec.Command("go", "test", "-vet=off", "-count=1", "-run", "^TestVReplay$", "-timeout", "90s", ".")
+	testTimeout := "90s"
+	if rf.Kind == "unwind" || rf.Kind == "deadlock" {
+		testTimeout = "20s"
+	}
+	cmd := exec.Command("go", "test", "-vet=off", "-count=1", "-run", "^TestVReplay$", "-timeout", testTimeout, ".")
 	cmd.Dir = scratch
 	cmd.Env = append(os.Environ(), "VERIF_REPLAY="+path, "GOFLAGS=-mod=mod", "GOPROXY=off", "GOSUMDB=off", "GOTOOLCHAIN=local")
 	done := make(chan struct{})
